@@ -333,7 +333,7 @@ def write_evidence(check, tier, seed, st, wall, extra=None, nviol=0):
         'wall_s': round(wall, 2),
         'violations': nviol,
     }
-    path = os.path.join(VERIF_DIR, 'evidence', check.ID + '.json')
+    path = os.path.join(os.environ.get('PPV_EVIDENCE_DIR') or os.path.join(VERIF_DIR, 'evidence'), check.ID + '.json')
     os.makedirs(os.path.dirname(path), exist_ok=True)
     tmp = path + '.tmp'
     with open(tmp, 'w') as f:
@@ -352,7 +352,7 @@ def load_known_findings():
 
 
 def save_replay(cid, code, detail, case, directory=None):
-    directory = directory or os.path.join(VERIF_DIR, 'replays', 'found')
+    directory = directory or os.environ.get('PPV_FOUND_DIR') or os.path.join(VERIF_DIR, 'replays', 'found')
     os.makedirs(directory, exist_ok=True)
     h = hashlib.blake2b(canonical(case).encode(), digest_size=6).hexdigest()
     path = os.path.join(directory, '%s-%s.json' % (cid, h))
